@@ -21,7 +21,14 @@ META = {
 }
 
 P = "MjProof.C23."
-THEOREMS = [P + t for t in ()]
+THEOREMS = [P + t for t in (
+    "dot_eq_sum", "mulMatVec_eq",
+    "cholSolve_correct", "cholFactor_reconstructs_partial", "cholFactor_cholSolve_solves",
+    "band_dense_roundtrip", "bandDiag_eq_addr",
+    "dotSparse_eq_dense", "mulMatVecSparse_eq_dense", "mulMatTVecSparse_eq_dense", "addToSymSparse_eq_dense",
+    "sparse2dense_eq_dense", "sparse2dense_dense2sparse", "dense2sparse_sparse2dense",
+    "eig3_certificate", "boxQP_certificate", "QCQP_certificate",
+)]
 
 AVX_RTOL = 1e-10       # stated tolerance of the AVX correspondence (observed deviation: see evidence)
 EIG_VEC_TOL = 1e-4     # see oracle_only_op (early exit of the Jacobi loop at angles < 1.4e-6 rad)
@@ -732,7 +739,7 @@ def gen_oracle_lines(ctx, n):
         A = spd(rng, n_, 1)
         b = [rng.gauss(0, 1) * rng.choice((0.1, 1, 10)) for _ in range(n_)]
         d = [abs(rng.gauss(1, 0.3)) + 0.1 for _ in range(n_)]
-        rr = abs(rng.gauss(0.5, 0.5)) + 0.01
+        rr = (abs(rng.gauss(0.5, 0.5)) + 0.01) * rng.choice((1, 1, 1, 0.1))
         out.append(("o_qcqp", J("o_qcqp", n_, fv(A), fv(b), fv(d), hexf(rr), rng.randint(0, 1) if n_ <= 3 else 1)))
         # band Cholesky on a band-admissible SPD matrix
         nt = max(1, size(rng, 20))
@@ -757,6 +764,27 @@ def gen_oracle_lines(ctx, n):
         out.append(("spmv_super", J("spmv_super", patstr(nr, nc, cap, rownnz, rowadr, colind), fv(rvec(rng, cap, "g")),
                                     fv(rvec(rng, nc, "g")))))
     return out
+
+
+QCQP_STATS = {"all": 0, "rho>30 (feasibility not checked)": 0, "rho>30 and infeasible result": 0}
+
+
+def solve_small(M, v, n):
+    """Gaussian elimination with partial pivoting (spec side, n <= 5); None if singular"""
+    M = [row[:] + [v[i]] for i, row in enumerate(M)]
+    for i in range(n):
+        p = max(range(i, n), key=lambda k: abs(M[k][i]))
+        if M[p][i] == 0:
+            return None
+        M[i], M[p] = M[p], M[i]
+        for k in range(i + 1, n):
+            f = M[k][i] / M[i][i]
+            for j in range(i, n + 1):
+                M[k][j] -= f * M[i][j]
+    x = [0.0] * n
+    for i in range(n - 1, -1, -1):
+        x[i] = (M[i][n] - sum(M[i][j] * x[j] for j in range(i + 1, n))) / M[i][i]
+    return x
 
 
 def matvec(M, v, n):
@@ -835,25 +863,42 @@ def oracle_only_op(kind, line, out):
             r = unhex(w[i])
             act = int(o[0])
             x = [float(t) for t in o[1:1 + n]]
-            # KKT: (A + la D^-2) x + b = 0, la >= 0, la * (sum (x/d)^2 - r^2) = 0, feasibility
+            # KKT: (A + la D^-2) x + b = 0, la >= 0, la * (sum (x/d)^2 - r^2) = 0, feasibility (theorem QCQP_certificate).
+            # The routines run at most 20 Newton steps on the multiplier from la = 0 and return the last iterate
+            # unprojected ("in case QCQP is approximate", engine_solver.c projects it afterwards): the step grows la by
+            # a factor <= 1.5 while far from the root, so feasibility / complementarity are only reached when
+            # rho = |unconstrained minimiser| / r (scaled coordinates) is moderate.  Stationarity holds for every
+            # iterate and is checked on all samples; feasibility and tightness on samples with rho <= 30, with the
+            # code's own exit threshold 1e-10 on sum (x/d)^2 - r^2 and 10x slack.
             gx = math.fsum((x[k] / d[k]) ** 2 for k in range(n)) - r * r
             grad = [a + c for a, c in zip(matvec(A, x, n), b)]
             sc = max(abs(v) for v in b + [1.0]) * max(1.0, max(abs(v) for v in A))
-            if gx > 1e-6 * max(1.0, r * r):
-                return "mju_QCQP: result violates the constraint"
+            As = [[A[i_ * n + j] * d[i_] * d[j] for j in range(n)] for i_ in range(n)]
+            v0 = solve_small(As, [-b[k] * d[k] for k in range(n)], n)
+            rho = math.sqrt(math.fsum(t * t for t in v0)) / r if v0 is not None else math.inf
+            QCQP_STATS["all"] += 1
             # multiplier from the stationarity equations (least squares over coordinates)
             num = -math.fsum(grad[k] * x[k] / d[k] ** 2 for k in range(n))
             den = math.fsum((x[k] / d[k] ** 2) ** 2 for k in range(n))
             la = num / den if den > 0 else 0.0
             if not act:
                 la = 0.0
-            if la < -1e-6 * sc:
+            if la < -1e-9 * sc:
                 return "mju_QCQP: negative multiplier"
             res = [grad[k] + la * x[k] / d[k] ** 2 for k in range(n)]
-            if max(abs(v) for v in res) > 1e-5 * sc:
+            if max(abs(v) for v in res) > 1e-9 * sc:
                 return "mju_QCQP: stationarity violated"
-            if act and abs(gx) > 1e-5 * max(1.0, r * r):
+            if rho > 30:
+                QCQP_STATS["rho>30 (feasibility not checked)"] += 1
+                if gx > 1e-9:
+                    QCQP_STATS["rho>30 and infeasible result"] += 1
+                return None
+            if gx > 1e-9:
+                return "mju_QCQP: result violates the constraint"
+            if act and abs(gx) > 1e-9:
                 return "mju_QCQP: active flag set but constraint not tight"
+            if not act and rho > 1.0 + 1e-6:
+                return "mju_QCQP: reported unconstrained although the unconstrained minimiser is infeasible"
             return None
         if kind == "o_band":
             nt, nb, nd = int(w[1]), int(w[2]), int(w[3])
@@ -954,6 +999,10 @@ def run(ctx):
                     ctx.oracle_failure("c23:" + why.split(":")[0].split(" ")[0] + ":" + kind, why + " [%s build]" % variant,
                                        {"line": l[:6000], "impl_output": o[:3000], "variant": variant,
                                         "replay": "echo '<line>' | <c23_linalg harness, %s build>" % variant})
+        ctx.extra["qcqp_scope_" + variant] = dict(QCQP_STATS)
+        ctx.extra["eig3_max_rel_residual_" + variant] = EIG_DEV[0]
+        for k_ in QCQP_STATS:
+            QCQP_STATS[k_] = 0
         ctx.extra["oracle_checked_" + variant] = len(lines) + len(olines)
         ctx.extra["oracle_failures_" + variant] = nfail
         if variant == "scalar":
